@@ -109,7 +109,9 @@ def tz_table(tzname, start, nsecs):
 def limits_of(obj, sc, G, rid):
     L = obj.get("limits", sc)
     out = []
-    if L:
+    # limits inherited from a container / group are independent copies that are implied by the
+    # original (which is consulted through the ancestor walk anyway): only own limits are modelled
+    if L and obj.provided("limits", sc):
         for lim in L._limits:
             kind = {"dailymax": "d", "weeklymax": "w"}.get(lim.name)
             if kind is None:
